@@ -21,9 +21,9 @@ TlvW == INSTANCE TlvWalk
 
 Rec == ndJsonDeserialize(IOEnv.TRACE)
 
-VARIABLES l, sess, parsed, pairA, w
+VARIABLES l, sess, parsed, pairA, w, wGated
 
-tvars == << b, l, sess, parsed, pairA, w >>
+tvars == << b, l, sess, parsed, pairA, w, wGated >>
 
 Ev == Rec[l]
 IsEvent(name) == l <= Len(Rec) /\ Ev.op = name /\ l' = l + 1
@@ -41,7 +41,7 @@ Dead == [AfterNew(0, 0) EXCEPT !.alive = FALSE]
 
 TraceInit ==
     /\ b = Dead /\ l = 1 /\ sess = Sess0([g |-> "none"])
-    /\ parsed = [k |-> "none"] /\ pairA = [pair |-> -1, built |-> [k |-> "none"]] /\ w = << >>
+    /\ parsed = [k |-> "none"] /\ pairA = [pair |-> -1, built |-> [k |-> "none"]] /\ w = << >> /\ wGated = TRUE
 
 (* what an observed `built` must look like next to the model's prediction (drift only) *)
 SameBuilt(obs, exp) == obs.k = exp.k /\ (exp.k = "ok" => obs.v = exp.v)
@@ -61,7 +61,7 @@ TraceBReset ==
     /\ IsEvent("BReset")
     /\ sess' = Sess0(Ev.tag)
     /\ b' = Dead
-    /\ UNCHANGED << parsed, pairA, w >>
+    /\ UNCHANGED << parsed, pairA, w, wGated >>
 
 TraceBNew ==
     /\ IsEvent("BNew")
@@ -69,7 +69,7 @@ TraceBNew ==
        IN  /\ b' = s
            /\ sess' = [sess EXCEPT !.ops = << << "BNew", Ev.vc, Ev.afp >> >>]
            /\ Emit(BuiltChecks(s, Ev.built), BuiltFlags(s, Ev.built))
-    /\ UNCHANGED << parsed, pairA, w >>
+    /\ UNCHANGED << parsed, pairA, w, wGated >>
 
 TraceBWith ==
     /\ IsEvent("BWith")
@@ -77,7 +77,7 @@ TraceBWith ==
        IN  /\ b' = s
            /\ sess' = [sess EXCEPT !.ops = << << "BWith", Ev.vc, Ev.tr, Ev.a >> >>]
            /\ Emit(BuiltChecks(s, Ev.built), BuiltFlags(s, Ev.built))
-    /\ UNCHANGED << parsed, pairA, w >>
+    /\ UNCHANGED << parsed, pairA, w, wGated >>
 
 TraceBReserve ==
     /\ IsEvent("BReserve")
@@ -86,7 +86,7 @@ TraceBReserve ==
            /\ sess' = sess
            /\ Emit(BuiltChecks(s, Ev.built) \cup Sel("C10", IF Ev.r # "ok" THEN {<< "C10", "reserve-failed", "reserve" >>} ELSE {}),
                    BuiltFlags(s, Ev.built))
-    /\ UNCHANGED << parsed, pairA, w >>
+    /\ UNCHANGED << parsed, pairA, w, wGated >>
 
 TraceBSetLen ==
     /\ IsEvent("BSetLen")
@@ -94,7 +94,7 @@ TraceBSetLen ==
        IN  /\ b' = s
            /\ sess' = [sess EXCEPT !.noSetLen = FALSE]
            /\ Emit(BuiltChecks(s, Ev.built), BuiltFlags(s, Ev.built))
-    /\ UNCHANGED << parsed, pairA, w >>
+    /\ UNCHANGED << parsed, pairA, w, wGated >>
 
 (* common part of the three write events; ps = the payloads, opRec = how the call is remembered *)
 WriteEvent(ps, opRec) ==
@@ -115,17 +115,17 @@ WriteEvent(ps, opRec) ==
 TraceBWrite ==
     /\ IsEvent("BWrite")
     /\ WriteEvent(<< Ev.p >>, << << "BWrite", Ev.p >> >>)
-    /\ UNCHANGED << parsed, pairA, w >>
+    /\ UNCHANGED << parsed, pairA, w, wGated >>
 
 TraceBWrites ==
     /\ IsEvent("BWrites")
     /\ WriteEvent(Ev.ps, << << "BWrites", Ev.ps >> >>)
-    /\ UNCHANGED << parsed, pairA, w >>
+    /\ UNCHANGED << parsed, pairA, w, wGated >>
 
 TraceBTlv ==
     /\ IsEvent("BTlv")
     /\ WriteEvent(<< [ty |-> "tlv", t |-> Ev.t, v |-> Ev.v] >>, << << "BTlv", Ev.t, Ev.v >> >>)
-    /\ UNCHANGED << parsed, pairA, w >>
+    /\ UNCHANGED << parsed, pairA, w, wGated >>
 
 (* ---- C13: the ops of a rebuild session must be the observed parts of the parsed header ---- *)
 ExpectedRebuildOps(mode) ==
@@ -149,9 +149,13 @@ C13(built) ==
                       /\ (tag.mode = "items" => \A i \in 1..Len(o.vw.walk.items) : o.vw.walk.items[i].k \in {"ok", "none"})
                       /\ (tag.mode = "addr" => o.addr.k # "Unspecified")
     IN  IF "C13" \notin Props \/ tag.g # "rebuild" THEN [f |-> {}, nt |-> FALSE]
+        ELSE IF tag.mode = "items" /\ parsed.k = "parsed" /\ o.k = "ok" /\ o.vw.k = "ok" /\ o.vw.walk.n > 50
+             THEN [f |-> {}, nt |-> FALSE]     \* the logged walk is abbreviated: not checked item by item
         ELSE IF ~applicable THEN [f |-> {<< "BIND", "rebuild-session-without-applicable-parse", tag.mode >>}, nt |-> FALSE]
         ELSE IF sess.ops # ExpectedRebuildOps(tag.mode) THEN [f |-> {<< "BIND", "rebuild-ops-are-not-the-observed-parts", tag.mode >>}, nt |-> FALSE]
         ELSE [f |-> IF built.k = "ok" /\ built.v = o.raw THEN {} ELSE {<< "C13", "rebuilt-header-differs", tag.mode >>}, nt |-> TRUE]
+
+CapWalk(e) == IF Len(e) > 50 THEN SubSeq(e, 1, 40) \o SubSeq(e, Len(e) - 4, Len(e)) ELSE e
 
 (* ---- C07: the wire format of a TLV-only build ---- *)
 C07Applies == sess.tag.g = "bwire" /\ sess.tlvOnly /\ sess.noSetLen /\ Len(sess.ops) >= 1 /\ sess.ops[1][1] = "BWith"
@@ -182,13 +186,13 @@ TraceBBuild ==
        IN  /\ Emit(BuiltChecks(b, Ev.built) \cup c13.f \cup c07.f \cup pairFails,
                    BuiltFlags(b, Ev.built) \cup Flag("C13", c13.nt) \cup Flag("C07", c07.nt))
            /\ pairA' = IF tag.g = "bpairs" /\ tag.side = "a" THEN [pair |-> tag.pair, built |-> Ev.built] ELSE pairA
-    /\ UNCHANGED << b, sess, parsed, w >>
+    /\ UNCHANGED << b, sess, parsed, w, wGated >>
 
 TraceParsed ==
     /\ IsEvent("Parsed")
     /\ parsed' = [k |-> "parsed", obs |-> Ev.obs]
     /\ Emit(Sel("C03", IF Ev.obs.k = "panic" THEN {<< "C03", "panic", "v2" >>} ELSE {}), {})
-    /\ UNCHANGED << b, sess, pairA, w >>
+    /\ UNCHANGED << b, sess, pairA, w, wGated >>
 
 (* parse of what a bwire session built *)
 TraceParseBack ==
@@ -208,14 +212,16 @@ TraceParseBack ==
                IF o.k # "ok" THEN {<< "C07", "built-header-does-not-parse", "v2" >>}
                ELSE (IF o.cmd # V2!CommandName(ctor[2] % 16) \/ o.tr # ctor[3] \/ o.addr # ctor[4] THEN {<< "C07", "parse-back-fields", "v2" >>} ELSE {})
                     \cup (IF o.raw # Ev.input THEN {<< "C07", "parse-back-bytes", "v2" >>} ELSE {})
-                    \cup (IF ctor[4].k # "Unspecified" /\ gotItems # expItems \o none3 THEN {<< "C07", "parse-back-tlvs", "v2" >>} ELSE {})
+                    \cup (IF ctor[4].k # "Unspecified" /\ (gotItems # CapWalk(expItems \o none3) \/ o.vw.walk.n # Len(expItems) + 3)
+                          THEN {<< "C07", "parse-back-tlvs", "v2" >>} ELSE {})
        IN  Emit(IF applies THEN fails ELSE {}, Flag("C07", applies))
-    /\ UNCHANGED << b, sess, parsed, pairA, w >>
+    /\ UNCHANGED << b, sess, parsed, pairA, w, wGated >>
 
 (* ---- writer ---- *)
 TraceWFrom ==
     /\ IsEvent("WFrom")
     /\ w' = Ev.pre
+    /\ wGated' = TRUE
     /\ UNCHANGED << b, sess, parsed, pairA >>
 
 C20_Fails(cur, p, r, fin, tb) ==
@@ -238,11 +244,44 @@ TraceWWrite ==
                                   THEN {<< "DRIFT", "writer-limit-behaviour", Ev.p.ty >>} ELSE {}),
                 Flag("C20", RlLen(w) <= 4096) \cup Flag("C03", TRUE))
     /\ w' = Ev.fin
+    /\ UNCHANGED << b, sess, parsed, pairA, wGated >>
+
+(* one writer created with Writer::default() and kept across several writes *)
+TraceWDefault ==
+    /\ IsEvent("WDefault")
+    /\ w' = << >>
+    /\ wGated' = TRUE
     /\ UNCHANGED << b, sess, parsed, pairA >>
+
+TraceWWriteP ==
+    /\ IsEvent("WWriteP")
+    /\ LET model == WriteTo(w, Ev.p)
+           gated == RlLen(w) <= 4096
+           fails == IF Ev.r.k = "panic" \/ ~gated THEN {}
+                    ELSE IF Refused(Ev.p) THEN (IF Ev.r.k # "err" THEN {<< "C20", "oversized-value-not-refused-cleanly", Ev.p.ty >>} ELSE {})
+                    ELSE IF Ev.r.k # "ok" THEN {<< "C20", "write-failed", Ev.p.ty >>}
+                    ELSE IF Ev.r.n # RlLen(Encode(Ev.p)) THEN {<< "C20", "reported-size", Ev.p.ty >>}
+                    ELSE {}
+       IN  /\ Emit(Sel("C20", fails)
+                   \cup Sel("C03", IF Ev.r.k = "panic" THEN {<< "C03", "panic", "write_to" >>} ELSE {})
+                   \cup Sel("DRIFT", IF Ev.r.k \in {"ok", "err"} /\ (Ev.r.k = "ok") # model.ok
+                                     THEN {<< "DRIFT", "writer-limit-behaviour", Ev.p.ty >>} ELSE {}),
+                   Flag("C20", gated) \cup Flag("C03", TRUE))
+           /\ w' = IF Ev.r.k = "ok" THEN RlCat(w, Encode(Ev.p)) ELSE (IF ~model.ok THEN model.bytes ELSE w)
+           /\ wGated' = (wGated /\ gated)
+    /\ UNCHANGED << b, sess, parsed, pairA >>
+
+TraceWFinish ==
+    /\ IsEvent("WFinish")
+    /\ Emit(Sel("C20", IF wGated /\ Ev.fin # w THEN {<< "C20", "appended-bytes", "persistent-writer" >>} ELSE {})
+            \cup Sel("DRIFT", IF ~wGated /\ Ev.fin # w THEN {<< "DRIFT", "writer-contents", "persistent-writer" >>} ELSE {}),
+            Flag("C20", wGated))
+    /\ UNCHANGED << b, sess, parsed, pairA, w, wGated >>
 
 TraceNext ==
     \/ TraceBReset \/ TraceBNew \/ TraceBWith \/ TraceBReserve \/ TraceBSetLen \/ TraceBWrite \/ TraceBWrites
     \/ TraceBTlv \/ TraceBBuild \/ TraceParsed \/ TraceParseBack \/ TraceWFrom \/ TraceWWrite
+    \/ TraceWDefault \/ TraceWWriteP \/ TraceWFinish
 
 TraceSpec == TraceInit /\ [][TraceNext]_tvars
 
